@@ -144,7 +144,7 @@ def run_check(prop, tier, base_seed, runs_override=None, workers=None):
         small['property'] = prop
         small['expect'] = {'clause': r1.violation.clause, 'sig': msig, 'detail': r1.violation.detail,
                            'digest': r1.log.digest(), 'found_by_seed': seed}
-        path = os.path.join(core.VERIF_DIR, 'replays', f'{prop}-{r1.log.digest()[:12]}.json')
+        path = os.path.join(os.environ.get('VERIF_REPLAY_DIR') or os.path.join(core.VERIF_DIR, 'replays'), f'{prop}-{r1.log.digest()[:12]}.json')
         core.write_json(path, small)
         fr = fresh_replay(path, prop)
         if fr['violation'] is None or fr['violation']['clause'] != r1.violation.clause or fr['digest'] != r1.log.digest():
